@@ -67,17 +67,17 @@ type c05Tick struct {
 }
 
 type c05Case struct {
-	Failover  bool      `json:"failover"`
-	Resetup   bool      `json:"resetup_crashed_hosts"`
-	Delay     int       `json:"failover_delay_s"`
-	Maint     int       `json:"maintenance"`
-	Pending   int       `json:"pending_request"`
-	MasterUp  bool      `json:"manager_reaches_master"`
-	Reps      [2]int    `json:"replicas"`
-	List      int       `json:"list_size"` // 0 absent, 1 [h1], 2 [h1,h2], 3 [h1,h2,h3]
-	Last      int       `json:"last_switch"`
-	Async     bool      `json:"async_config"`
-	Ticks     []c05Tick `json:"ticks"`
+	Failover bool      `json:"failover"`
+	Resetup  bool      `json:"resetup_crashed_hosts"`
+	Delay    int       `json:"failover_delay_s"`
+	Maint    int       `json:"maintenance"`
+	Pending  int       `json:"pending_request"`
+	MasterUp bool      `json:"manager_reaches_master"`
+	Reps     [2]int    `json:"replicas"`
+	List     int       `json:"list_size"` // 0 absent, 1 [h1], 2 [h1,h2], 3 [h1,h2,h3]
+	Last     int       `json:"last_switch"`
+	Async    bool      `json:"async_config"`
+	Ticks    []c05Tick `json:"ticks"`
 }
 
 func (c c05Case) String() string {
